@@ -52,21 +52,21 @@ def has_location(e):
         return False
 
 
-def classify(src, venom, level, limit, phase="bytecode", files=None):
-    r = classify1(src, venom, level, limit, phase, files)
+def classify(src, venom, level, limit, phase="bytecode", files=None, evm=None):
+    r = classify1(src, venom, level, limit, phase, files, evm)
     if r.get("exc") == "Timeout":
         # a loaded machine must not produce a finding: retry once, alone, with 4x the limit
-        r = classify1(src, venom, level, 4 * limit, phase, files)
+        r = classify1(src, venom, level, 4 * limit, phase, files, evm)
         if r.get("exc") == "Timeout":
             r["msg"] = f"no result within {limit}s and, retried, within {4 * limit}s"
     return r
 
 
-def classify1(src, venom, level, limit, phase="bytecode", files=None):
+def classify1(src, venom, level, limit, phase="bytecode", files=None, evm=None):
     from vyper.compiler import compile_code
     from vyper.compiler.settings import OptimizationLevel, Settings
     from vyper.exceptions import VyperException, VyperInternalException
-    st = Settings(optimize=OptimizationLevel.from_string(level), experimental_codegen=venom, enable_decimals=True)
+    st = Settings(optimize=OptimizationLevel.from_string(level), experimental_codegen=venom, enable_decimals=True, evm_version=evm)
     signal.signal(signal.SIGALRM, on_alarm)
     signal.setitimer(signal.ITIMER_REAL, limit)
     try:
@@ -115,8 +115,11 @@ def main():
             files = (root, it["target"], it.get("paths", ["."]), it.get("layout"))
         front = classify(it.get("src"), False, "gas", limit, phase="front", files=files)
         res["front"] = front
-        for venom, level in job["configs"]:
-            res["runs"][f"{'venom' if venom else 'legacy'}-{level}"] = classify(it.get("src"), venom, level, limit, files=files)
+        for cfg in job["configs"]:
+            venom, level = cfg[0], cfg[1]
+            evm = cfg[2] if len(cfg) > 2 else None
+            res["runs"][f"{'venom' if venom else 'legacy'}-{level}" + (f"-{evm}" if evm else "")] = \
+                classify(it.get("src"), venom, level, limit, files=files, evm=evm)
             if res["front"]["outcome"] != "output":
                 break  # rejected by the front end: one back-end run is enough to see the same diagnostic
         if files is not None:
